@@ -39,6 +39,14 @@ fn json_translation_for_type(python_type: &str) -> (r: Option<CustomJsonTranslat
 /// outlined (T3): `fields.iter().find(|f| python_property_aware_rename(&f.id.original) != f.id.renamed)`
 #[verifier::external_body]
 fn find_visibly_renamed(fields: &[RustField]) -> (r: Option<&RustField>) { unimplemented!() }
+/// the member as Python writes it: `name: T` / `name: Optional[T]` (spec/optmark.rs member), and for a type text with custom (de)serialiser functions the
+/// whole type wrapped in Annotated[..] - the optional marker stays inside, around the type text
+spec fn py_member_text(name: Seq<char>, t: Seq<char>, f: RustField) -> Seq<char> {
+    match py_custom(t) {
+        None => member(Lang::Python, name, t, f),
+        Some(ct) => name + ": "@ + py_annotated(py_inner(t, f), ct.deserialization_name@, ct.serialization_name@),
+    }
+}
 /// `[String]::join(sep)`
 #[verifier::external_body]
 fn join_strs(v: &Vec<String>, sep: &str) -> (r: String) ensures r@ == join(strs(v@), sep@) { unimplemented!() }
@@ -60,11 +68,8 @@ FIELD_CONTRACT = '''        requires obeys_key_model::<String>(), dom(field.ty),
         ensures /*C04 (a member whose type text has a custom (de)serialiser is wrapped in Annotated[..] as a whole: the optional marker stays around the type text inside)*/
             r is Ok ==> exists|pre: Seq<char>, t: Seq<char>, post: Seq<char>| #[trigger] wit3(pre, t, post)
                 && tx_ok(old(self).cfg(), generic_types@, field.ty, t)
-                && (py_custom(t) is None ==> final(w)@ == old(w)@ + pre + member(Lang::Python, py_name(field.id.original@), t, *field)
-                        + py_suffix(py_name(field.id.original@) != field.id.renamed@, field.id.renamed@, optional(*field)) + post)
-                && (py_custom(t) is Some ==> final(w)@ == old(w)@ + pre + py_name(field.id.original@) + ": "@
-                        + py_annotated(py_inner(t, *field), py_custom(t)->Some_0.deserialization_name@, py_custom(t)->Some_0.serialization_name@)
-                        + py_suffix(py_name(field.id.original@) != field.id.renamed@, field.id.renamed@, optional(*field)) + post),
+                && final(w)@ == old(w)@ + pre + py_member_text(py_name(field.id.original@), t, *field)
+                        + py_suffix(py_name(field.id.original@) != field.id.renamed@, field.id.renamed@, optional(*field)) + post,
             final(self).cfg() == old(self).cfg(), final(self).type_variables == old(self).type_variables,
             /*C12: recorded imports are never lost*/ imported_of(old(self).imports).subset_of(imported_of(final(self).imports)),
             /*C12: a member written with `= Field(..)` (aliased, Option or serde(default)) has pydantic.Field imported*/ (r is Ok && (py_name(field.id.original@) != field.id.renamed@ || optional(*field))) ==> imp(*final(self), "pydantic"@, "Field"@),
@@ -102,7 +107,7 @@ FIELD = [
             let m = py_name(field.id.original@) + ": "@ + ft;
             /*C04*/ assert(w1 =~= w0 + pre + m + sfx + wfmt_write_field_4_p3() + "\\n"@);
             /*C04*/ assert(w@ =~= w0 + pre + m + sfx + post);
-            /*C04*/ assert(py_custom(t0) is None ==> m == member(Lang::Python, py_name(field.id.original@), t0, *field));
+            /*C04*/ assert(m == py_member_text(py_name(field.id.original@), t0, *field));
             /*C04*/ assert(wit3(pre, t0, post));
         }
         ''', where='before'),
@@ -113,7 +118,7 @@ UNIT = Unit(
     items=O.base_items('Python', SRC) + [
         Item('struct_CustomJsonTranslationFunctions', SRC, ['struct CustomJsonTranslationFunctions']),
         Item('add_common_imports', SRC, ['impl Python {', 'fn add_common_imports'], COMMON, wrap=('impl Python {\n', '\n}\n'), auto=('strlit',)),
-        Item('write_field', SRC, ['impl Python {', 'fn write_field'], FIELD, wrap=('impl Python {\n', '\n}\n'),
+        Item('write_field', SRC, ['impl Python {', 'fn write_field'], FIELD, wrap=('impl Python {\n#[verifier::rlimit(40)] // solver budget only: the proof needs 9-20 M resource units depending on the seed, the default cap is 30 M\n', '\n}\n'),
              auto=('fmt', 'strlit', 'then_some', 'map_err_q')),
     ],
     functions=['Python::write_field', 'Python::add_common_imports', 'RustType::is_optional', 'RustType::is_double_optional'],
